@@ -57,7 +57,7 @@ def cfg_class(cfg):
 class ByteChanSpec(Spec):
     sim = "A"
     guard_globals = True
-    chunk = 250
+    chunk = 125
     state_measure = "distinct (configuration class, fault-kind set, receiver verdict classes) tuples"
     components = {
         "real": [
@@ -101,12 +101,30 @@ class ByteChanSpec(Spec):
 
         n = len(self.pool)
         idxs = [list(range(i, n, workers * 2)) for i in range(workers * 2)]
+        # everything the run workers would otherwise each compute for
+        # themselves (pure caches; no effect on any result): encoded streams and
+        # their field maps, the test-case-generator streams, the unit pools
+        for codec in W.TC_CODECS:
+            W.testcase_streams(codec)
+        tcs = [s for codec in W.TC_CODECS for _name, s in W.testcase_streams(codec)]
         with ProcessPoolExecutor(max_workers=workers, mp_context=multiprocessing.get_context("fork")) as ex:
             for part in ex.map(_warm_part, [(self.prop, verif_seed, tier, ix) for ix in idxs]):
-                for k, cfg, data in part:
+                for k, cfg, data, fm in part:
                     self.pool.pool[k] = cfg
                     if data is not None:
                         W._CACHE[repr(sorted(cfg.items()))] = data
+                        if fm is not None:
+                            F._FMAP_CACHE[data] = fm
+            for part in ex.map(_warm_fmaps, [tcs[i :: workers * 2] for i in range(workers * 2)]):
+                for data, fm in part:
+                    F._FMAP_CACHE[data] = fm
+        from sim import unitchan as U
+
+        for k in range(min(24, len(self.pool))):
+            try:
+                U.get_pool(dict(self.pool[k]))
+            except W.WorkloadError:
+                pass
 
     # ---- generation
     def draw_source(self, rng):
@@ -171,6 +189,9 @@ class ByteChanSpec(Spec):
         p_tr, p_fl, win = self.sweep_thorough if tier == "thorough" else self.sweep_quick
         if "raw" not in case and len(data) > 0 and r < p_tr + p_fl:
             case["faults"] = []
+            # cost bound: (single-fault executions) x (stream bytes) stays below
+            # ~win * 6000, so that a long stream gets a narrower window
+            win = max(4, min(win, (win * 6000) // (8 * len(data))))
             if r < p_tr:
                 # every truncation point of a window of 4*win positions (the
                 # whole stream when it is shorter), ends included
@@ -306,12 +327,18 @@ def _warm_part(args):
     out = []
     for k in ix:
         cfg = spec.pool[k]
+        fm = None
         try:
             data = W.encode_stream(cfg)
+            fm = F.FieldMap(data)
         except W.WorkloadError:
             data = None
-        out.append((k, cfg, data))
+        out.append((k, cfg, data, fm))
     return out
+
+
+def _warm_fmaps(datas):
+    return [(d, F.FieldMap(d)) for d in datas]
 
 
 def hash_bytes(b):
